@@ -54,13 +54,16 @@ func orders(t *tape.Tape) []uint64 {
 	return []uint64{0, 1, 2 + uint64(t.Draw(1000)), 2 + uint64(t.Draw(1000000))}
 }
 
+// cloneTables copies the tables; spare capacity (and the bytes in it) is
+// copied too, so that a clone is laid out in memory like the original.
 func cloneTables(m map[string][]byte) map[string][]byte {
 	res := make(map[string][]byte, len(m))
 	for k, v := range m {
 		if v == nil {
 			res[k] = nil
 		} else {
-			res[k] = append([]byte{}, v...)
+			full := append([]byte{}, v[:cap(v)]...)
+			res[k] = full[:len(v)]
 		}
 	}
 	return res
@@ -75,6 +78,26 @@ func runRaw(c *wk.Case) {
 	}
 	tables := map[string][]byte{}
 	nonNil := 0
+	// in a third of the cases all tables are sub-slices of one packed buffer:
+	// the capacity of each slice extends over the bytes of its neighbours
+	var packed []byte
+	if t.Chance(1, 3) {
+		packed = t.Bytes(n*700 + 64)
+		for i := range packed {
+			packed[i] |= 1
+		}
+	}
+	carve := func(l int) []byte {
+		if packed == nil || l > len(packed) {
+			if l == 0 {
+				return []byte{}
+			}
+			return t.Bytes(l)
+		}
+		b := packed[:l]
+		packed = packed[l:]
+		return b
+	}
 	for i := 0; i < n; i++ {
 		tag := genTag(t)
 		if i >= 20 {
@@ -84,7 +107,7 @@ func runRaw(c *wk.Case) {
 			continue
 		}
 		if tag == "head" {
-			tables[tag] = t.Bytes(t.Range(54, 60))
+			tables[tag] = carve(t.Range(54, 60))
 			nonNil++
 			continue
 		}
@@ -94,11 +117,10 @@ func runRaw(c *wk.Case) {
 			continue
 		}
 		l := genLen(t)
-		if l == 0 {
-			tables[tag] = []byte{}
-		} else {
-			tables[tag] = t.Bytes(l)
+		if packed != nil && l > 600 {
+			l = l % 600
 		}
+		tables[tag] = carve(l)
 		nonNil++
 	}
 	if nonNil == 0 {
